@@ -42,6 +42,10 @@ def check(ctx):
   r3(ctx)
   r4(ctx)
   r5(ctx)
+  from . import c20
+  ctx.rule('C20.R2', 'shared with C20: the generated proxy hands the method name, args and kwargs it was called with to the dispatcher unchanged (a keyword the proxy keeps for itself never reaches the '
+                     'generated args struct: the server decodes a call the caller did not make)')
+  c20.r2(ctx, prog.func('scales/core.py', 'ClientProxyBuilder._BuildServiceProxy'))
 
 
 def r1(ctx):
@@ -400,6 +404,24 @@ def r4(ctx):
            'the scan subscripts every entry of thrift_spec[1:]; for a method that throws (1: A a, 3: B b) entry 2 is None and e[2] raises TypeError',
            'a declared exception must reach the caller as that exception (and a void/normal reply as its value) for every method of every interface')
   ctx.ob('C14.R4', f, 'the declared-exception scan exists', n_scan >= 1, 'no loop over thrift_spec[1:]', why, nontrivial=False)
+  # the struct a reply is decoded into is created for that reply: generated read() only assigns the fields present in the reply, a reused struct
+  # keeps `success` / exception fields of an earlier reply
+  fresh_ok = True
+  n_read = 0
+  for r, conds, calls, ev in rets:
+    for i, e in enumerate(ev):
+      if e.kind == 'call' and call_attr(e.node) == 'read' and isinstance(e.node.func.value, ast.Name) and e.node.args and U(e.node.args[0]) == 'protocol':
+        obj = e.node.func.value.id
+        if obj == 'x':
+          continue
+        made = [d.node for d in ev[:i] if d.kind == 'stmt' and isinstance(d.node, ast.Assign) and any(U(t) == obj for t in d.node.targets)]
+        n_read += 1
+        v = made[-1].value if made else None
+        if not (isinstance(v, ast.Call) and not v.args and not v.keywords and (U(v.func).endswith('_cls') or U(v.func) in ('TApplicationException',))):
+          fresh_ok = False
+  ctx.ob('C14.R4', f, 'every reply is decoded into a struct created for it', fresh_ok and n_read >= 1,
+         'a path reads the reply into an object that was not constructed in this call (cached / shared result struct)',
+         'a reply without a success field (null result, declared exception only) must not return the value of an earlier reply')
   # a result class that exists is read before classification
   okread = all(any(call_attr(c) == 'read' for c in calls) for r, conds, calls, ev in rets
                if any(c.replace(' ', '') == 'result_cls' and t for c, t in POS(conds)))
@@ -435,6 +457,24 @@ def r5(ctx):
   oks = any(isinstance(st, ast.Assign) and U(st.targets[0]) == 'self.error' and U(st.value) == 'error' for st in mr.node.body) and any(
     isinstance(st, ast.Assign) and U(st.targets[0]) == 'self.return_value' and U(st.value) == 'return_value' for st in mr.node.body)
   ctx.ob('C14.R5', mr, 'MethodReturnMessage stores value and error as given', oks, 'field assignment changed', why, nontrivial=False)
+  # an error message always carries a captured stack: _WrapException wraps (ScalesError with the inner exception) only when msg.stack is set, and the
+  # codec builds its error messages outside any exception handler
+  ep = mr.params[2] if len(mr.params) > 2 else 'error'
+  n_err = 0
+  for ev, ex in enum_paths(ctx, mr, lambda call, armed: ['ZeroDivisionError'] if False else []):
+    if ex[0] == 'raise':
+      continue
+    fs_ = FACTS(ev)
+    if (ep, True) not in fs_:
+      continue
+    n_err += 1
+    st_ = [e.node for e in ev if e.kind == 'stmt' and isinstance(e.node, ast.Assign) and any(U(t) == 'self.stack' for t in e.node.targets)]
+    got = st_[-1].value if st_ else None
+    okst = got is not None and not (isinstance(got, ast.Constant) and got.value is None) and U(got) not in ('[]', '()', "''")
+    ctx.ob('C14.R5', mr, 'a message built with an error always records a stack', okst,
+           'a path for error != None leaves self.stack = %s (no exception in flight: the reply decoder builds its error messages outside any handler)' % (U(got) if got is not None else 'unset'),
+           why + ' -- with no stack the dispatcher hands the bare exception to the caller instead of the library error wrapping it')
+  ctx.floor('C14.R5', 'error paths of MethodReturnMessage.__init__', n_err, 1)
   oka = mr.params[1:3] == ['return_value', 'error']
   ctx.ob('C14.R5', mr, 'MethodReturnMessage(return_value, error) parameter order', oka, 'parameters are %s' % mr.params, why, nontrivial=False)
 
